@@ -1175,7 +1175,7 @@ def check_namer(a):
     for f, c, skip in sites:
         e = _bind(pinit, c, 'os_type', skip)
         vs = _value_set(a, f, e) if e is not None else {'unix'}
-        ck.expect(vs is not None and vs <= {'unix', 'windows'}, 'C15-D2', f.qual, 'os_type in %s' % (sorted(vs) if vs else norm_text(e)),
+        ck.expect(vs is not None and vs <= {'unix', 'windows'}, 'C15-D2', f.qual, 'os_type in {unix, windows}',
                   'PathNamer can be built with os_type=%s: neither the unix nor the windows separator set is escaped'
                   % (sorted(vs - {'unix', 'windows'}, key=str) if vs else norm_text(e)), f.loc(c))
         e = _bind(pinit, c, 'no_control', skip)
